@@ -222,6 +222,25 @@ class CallMixin:
                 b.assume(self.w.cls_of(b.alloc) == ec)
                 yield b, Raise(ec, self.w.V.ref(b.alloc))
             return
+        if ty is None and o.e is not None and cx.spec is None:
+            # a receiver of unknown type: an object (dynamic dispatch over the /repo classes that provide the method,
+            # proved complete by a `recv-type` obligation), or None (AttributeError); any other primitive is not modelled
+            V = self.w.V
+            a = st.clone()
+            a.assume(V.is_ref(o.e))
+            b = st.clone()
+            b.assume(V.is_none(o.e))
+            c = st.clone()
+            c.assume(z3.Not(z3.Or(V.is_ref(o.e), V.is_none(o.e))))
+            if self.o.feasible(c):
+                if any(k[1] == attr for k in self.STR_METHODS) or attr.startswith("__"):
+                    raise Unsupported("method %s on a value that may be a %s" % (attr, "number, text or class"))
+                yield from self.raise_new(c, "AttributeError")      # numbers, text, bytes, classes have no such method
+            if self.o.feasible(a):
+                yield from self.call_method(a, SV(o.e, "ref:object"), None, attr, args, kwargs, cx)
+            if self.o.feasible(b):
+                yield from self.raise_new(b, "AttributeError")
+            return
         raise Unsupported("method %s on %s" % (attr, ty))
 
     # ------------------------------------------------------------------ methods on references
@@ -254,7 +273,13 @@ class CallMixin:
                     br = rest.clone()
                     br.assume(o.is_type(recv.e, "ref:" + c))
                     if o.feasible(br):
-                        yield from self.call_method(br, SV(recv.e, "ref:" + c), c, name, args, kwargs, cx)
+                        try:
+                            outs = list(self.call_method(br, SV(recv.e, "ref:" + c), c, name, args, kwargs, cx))
+                        except Unsupported as ex_:
+                            if "argument" not in str(ex_):
+                                raise
+                            outs = list(self.raise_new(br, "TypeError"))     # wrong number of arguments for this class's method
+                        yield from outs
                     rest = rest.clone()
                     rest.assume(z3.Not(o.is_type(recv.e, "ref:" + c)))
                 return
